@@ -395,11 +395,15 @@ func blockStringValue(in string) string {
 		}
 	}
 	if commonIndent > 0 {
-		for i, line := range lines {
-			if commonIndent > len(line) {
+		// BlockStringValue: the common indentation is removed from every
+		// line except the first; a (whitespace-only) line shorter than
+		// the indentation becomes empty
+		for i := 1; i < len(lines); i++ {
+			if commonIndent > len(lines[i]) {
+				lines[i] = ""
 				continue
 			}
-			lines[i] = line[commonIndent:]
+			lines[i] = lines[i][commonIndent:]
 		}
 	}
 
